@@ -58,6 +58,16 @@ def sid_to_dict(sid: str, _type: Optional[str] = None) -> Tuple[str, dict] | Tup
     if not data:
         return None, None
 
+    # The regex end anchor "$" also matches before a trailing newline:
+    # a template only types the string if its fields render back to exactly that string.
+    if r.get_format_for(template).format(**data) != sid:
+        if _type:
+            return None, None
+        for template, data in r.resolve_all(sid).items():
+            if r.get_format_for(template).format(**data) == sid:
+                return template, data
+        return None, None
+
     return template, data
 
 
